@@ -62,7 +62,7 @@ def make_cb(cbid, kind, rewrite, parameterized=False):
             new_a = copy.copy(a)
             new_a.args = list(a.args) + [ast.Constant(value=777)]
         if parameterized:
-            return s2, new_a, float
+            return s2, new_a, (float if parameterized is True else parameterized)
         return s2, new_a
 
     return cb
@@ -81,24 +81,35 @@ class Placement:
         self.uid = uid
         R = lambda: rnd.choice([None, None, "rename", "addarg"])  # noqa
 
+        self.shared_cb = {}  # class name -> the ONE function object registered on the class and on some of its methods
+
         def cls_deco(name):
             if rnd.random() < 0.4:
                 rw = R()
+                if rnd.random() < 0.3:
+                    rw = None
+                    self.cls_cb[name] = (f"class:{name}", rw)
+                    self.shared_cb[name] = make_cb(f"class:{name}", "class", rw)
+                    return func_adl_callback(self.shared_cb[name])
                 self.cls_cb[name] = (f"class:{name}", rw)
                 return func_adl_callback(make_cb(f"class:{name}", "class", rw))
             return lambda c: c
 
         def m_deco(cls, m):
+            if cls in self.shared_cb and rnd.random() < 0.5:
+                # the very same function object is registered for the method too: two registrations, two invocations per site
+                self.meth_cb[(cls, m)] = (f"class:{cls}", None)
+                return func_adl_callback(self.shared_cb[cls])
             if rnd.random() < 0.4:
                 rw = R()
                 self.meth_cb[(cls, m)] = (f"method:{cls}.{m}", rw)
                 return func_adl_callback(make_cb(f"method:{cls}.{m}", "method", rw))
             return lambda f: f
 
-        def p_deco(cls, p):
+        def p_deco(cls, p, rtype=True):
             rw = R()
             self.prop_cb[(cls, p)] = (f"prop:{cls}.{p}", rw)
-            return func_adl_parameterized_call(make_cb(f"prop:{cls}.{p}", "prop", rw, parameterized=True))
+            return func_adl_parameterized_call(make_cb(f"prop:{cls}.{p}", "prop", rw, parameterized=rtype))
 
         @cls_deco("Particle")
         class Particle:
@@ -131,6 +142,11 @@ class Placement:
             @property
             def getAttr(self): ...
 
+            # a parameterized property whose callback says the result is a Trk (a class with callbacks and defaults of its own)
+            @p_deco("Jet", "link", Trk)
+            @property
+            def link(self): ...
+
         @cls_deco("Event")
         class Event:
             @m_deco("Event", "jets")
@@ -143,6 +159,10 @@ class Placement:
             @p_deco("Event", "info")
             @property
             def info(self): ...
+
+            @p_deco("Event", "lead", Jet)
+            @property
+            def lead(self): ...
 
         self.Event, self.Jet, self.Trk = Event, Jet, Trk
         self.fname = f"c09f{uid}"
@@ -159,6 +179,7 @@ class Placement:
         self.DEFINED_ON = {("Jet", "mass"): "Particle", ("Jet", "phi"): "Particle", ("Trk", "mass"): "Particle", ("Trk", "phi"): "Particle"}
         self.COLLS = {"Event": [("jets", "Jet"), ("trks", "Trk")], "Jet": [("trks", "Trk")], "Trk": []}
         self.PROPS = {"Event": ["info"], "Jet": ["getAttr"], "Trk": []}
+        self.TYPED_PROPS = {"Event": [("lead", "Jet")], "Jet": [("link", "Trk")], "Trk": []}
 
     def cleanup(self):
         from func_adl import type_based_replacement as tbr
@@ -216,6 +237,13 @@ class SiteGen:
             params = r.choice(PARAMS)
             mk = self.site(cls, p, depth, kind="prop", params=params)
             return f"{v}.{p}[{params}]({mk})"
+        if k < 0.56 and self.pl.TYPED_PROPS[cls]:
+            # typed result of a parameterized property, used at once as the receiver of a callback-bearing method
+            p, rcls = r.choice(self.pl.TYPED_PROPS[cls])
+            params = r.choice(PARAMS)
+            mk = self.site(cls, p, depth, kind="prop", params=params)
+            self.typed_prop_chains = getattr(self, "typed_prop_chains", 0) + 1
+            return self.call(f"{v}.{p}[{params}]({mk})", rcls, r.choice(self.pl.METHODS[rcls]), depth)
         if k < 0.6:
             mk = self.site("func", self.pl.fname, depth, kind="func")
             return f"{self.pl.fname}({self.scalar(v, cls, depth)}, {mk})"
@@ -308,9 +336,18 @@ def run_case(ctx, rnd, pl, ds):
                 ctx.violation(f"callback-not-invoked:{kind}:depth{min(site['depth'], 2)}", f"{op}({text}): site {mk} ({site['cls']}.{site['name']}, depth {site['depth']}) has callback {cbid} which never fired; log={[(e['cb'], e['marker']) for e in log][:12]}", witness)
                 return
         kinds = [c[2] for c in site["cbs"]]
-        if "class" in kinds and "method" in kinds:
-            fc = min(e["t"] for e in evs if e["kind"] == "class")
-            fm = min(e["t"] for e in evs if e["kind"] == "method")
+        ids = [c[0] for c in site["cbs"]]
+        if len(ids) == 2 and ids[0] == ids[1]:
+            # one function registered on the class and on the method: each registration fires
+            ctx.count("sites-with-one-function-registered-twice")
+            if sum(1 for e in evs if e["cb"] == ids[0]) < 2:
+                ctx.violation("callback-registered-on-class-and-method-fired-once", f"{op}({text}): site {mk} ({site['cls']}.{site['name']}): the same function is registered on the class and on the method, it fired {sum(1 for e in evs if e['cb'] == ids[0])}x", witness)
+                return
+        elif "class" in kinds and "method" in kinds:
+            cid = [c[0] for c in site["cbs"] if c[2] == "class"][0]
+            mid = [c[0] for c in site["cbs"] if c[2] == "method"][0]
+            fc = min(e["t"] for e in evs if e["cb"] == cid)
+            fm = min(e["t"] for e in evs if e["cb"] == mid)
             if fc > fm:
                 ctx.violation("method-callback-before-class-callback", f"{op}({text}): site {mk}: method-level callback fired before the class-level one", witness)
                 return
